@@ -412,6 +412,13 @@ def ok_C19(ctx, snap):
                 if val > mx:
                     fails.append("user constraint %s <= %s (%s-level) violated at stop %d of vehicle %d: %s" %
                                  (f, mx, "vehicle" if veh else "stop", c["stop"], v, val))
+    # solution-level rules: read off the routes
+    sizes = [len(r) - 2 for r in snap["routes"].values()]
+    for kind, k in m.get("usol", []):
+        if kind == "balance" and sizes and max(sizes) - min(sizes) > k:
+            fails.append("solution-level user constraint: route sizes %s differ by more than %d" % (sizes, k))
+        if kind == "maxplanned" and sum(sizes) > k:
+            fails.append("solution-level user constraint: %d stops planned, at most %d allowed" % (sum(sizes), k))
     return fails
 
 
